@@ -9,7 +9,9 @@ NAME when the skeleton it pins moves.  A failing theorem is a broken obligation 
 check then searches for a concrete failing input and reports `no-failing-input-found` when there is none.
 
 Normal forms (harness/cmd/fsfacts/canon.go, analyses.go): receiver `recv`, parameters `p1 p2 …` by position,
-named results `err` / `r1 …`, other locals `v1 v2 …` in order of first appearance; `:=` printed `=`; comments,
+named results `err` / `r1 …`, parameters of a function literal `a1 a2 …`, other locals `v1 v2 …` in order of first
+appearance (per declaration: the parser's scope analysis, not the name); `:=` printed `=`; operands of `a | b`
+and fields of keyed literals in alphabetical order; comments,
 `var x T`, verifhook.Yield, Lock/Unlock calls, assignments to a `time` field are dropped; error constructors are
 printed `error`; `if h => return …` is an `if` whose whole body is that return.  "slice events" keeps only the
 statements that mention a slice (slice parameters, `.data`, `.nodes`, make/append/copy, getData/getNodes/setData,
